@@ -53,6 +53,28 @@ def oracle_case(res, ast, d, env, rng):
     if bad:
         return {"op": "evaluate_propositions", "model": ast_json(ast), "interpretation": {k: list(v) for k, v in d.items()},
                 "env": env, "problem": bad}
+    # the SAME model object and the SAME dictionary object, updated in place between two calls (leaf-only dictionaries:
+    # naming a sub-proposition id is the known leak D2 of property C09): the second answer must follow the update
+    if not any(k in compound_ids(m) for k in d) and env:
+        mm = build(ast)
+        dd = {k: int(v[0]) for k, v in d.items()}
+        mm.evaluate_propositions(dd); mm.evaluate(dd)
+        k0 = sorted(env)[rng.randrange(len(env))]
+        lf = [l for l in leaves_of(mm) if l.id == k0][0]
+        alt = [v for v in (int(lf.bounds.lower), int(lf.bounds.upper)) if v != dd[k0]]
+        if alt:
+            dd[k0] = alt[0]
+            env2 = dict(env); env2[k0] = alt[0]
+            ref2 = {}
+            top2 = ref_eval_d(mm, {}, env2, ref2)
+            got2 = mm.evaluate_propositions(dd)
+            res.evaluations += 1
+            wrong = [(k, b.as_tuple(), sorted(ref2[k])) for k, b in got2.items() if b.as_tuple() != (list(ref2[k])[0],) * 2]
+            ev2 = mm.evaluate(dd).as_tuple()
+            if wrong or ev2 != (top2, top2):
+                return {"op": "evaluate_propositions-reused-dict", "model": ast_json(ast), "interpretation": {k: [v, v] for k, v in env.items()},
+                        "env": env, "update": [k0, alt[0]],
+                        "problem": f"after updating the interpretation dictionary in place ({k0} := {alt[0]}) a second evaluate_propositions on the same model reports {wrong[:3]} / evaluate() = {ev2}, truth function gives {top2}"}
     return None
 
 def run(res, tier, seed):
@@ -103,6 +125,8 @@ def replay(payload):
     r = payload.get("replay", payload)
     ast = r["model"]; d = {k: tuple(v) for k, v in r["interpretation"].items()}
     class R: evaluations = 0
-    bad = oracle_case(R, ast, d, r["env"], random.Random(0))
+    bad = None
+    for sd in range(20):          # the reused-dictionary step picks a leaf at random
+        bad = bad or oracle_case(R, ast, d, r["env"], random.Random(sd))
     print("model", build(ast), "interpretation", d, "->", "FAILS: " + bad["problem"] if bad else "holds")
     return 1 if bad else 0
